@@ -843,6 +843,8 @@ func ruleR39R40(c *Ctx) {
 					} else {
 						c.r.bad("R40", key, m.pos(rs.Pos()), "Prefix returns something other than the filtering scan", props...)
 					}
+				case isCall && c.returnsFilter(m.calleeUnit(call), u, 0):
+					c.r.ok("R40", key, m.pos(rs.Pos()), "a helper of the tree whose every result is the filtering scan", props...)
 				default:
 					if endsInPanic(info, []ast.Stmt{&ast.ExprStmt{X: rs.Results[0]}}) {
 						continue
@@ -908,4 +910,32 @@ func (c *Ctx) isGreatestKeyCall(u *FuncUnit, call *ast.CallExpr, depth int) bool
 		return true
 	})
 	return found && okAll
+}
+
+
+// returnsFilter: a method of the same tree (Prefix split into Prefix + prefixScan) whose every
+// return is the filtering scan.
+func (c *Ctx) returnsFilter(cu, from *FuncUnit, depth int) bool {
+	if cu == nil || cu.Lit != nil || cu.Body == nil || cu.Recv != from.Recv || cu.Recv == "" || depth > 1 {
+		return false
+	}
+	info := c.m.Info
+	rets, all := returnExprs(cu)
+	if !all {
+		return false
+	}
+	for _, r := range rets {
+		res := ast.Unparen(c.m.throughLocals(cu, r))
+		call, ok := res.(*ast.CallExpr)
+		if !ok || isConversion(info, call) {
+			return false
+		}
+		if c.m.calleeName(call) == "filter" {
+			continue
+		}
+		if !c.returnsFilter(c.m.calleeUnit(call), cu, depth+1) {
+			return false
+		}
+	}
+	return len(rets) > 0
 }
